@@ -72,6 +72,8 @@ mod corpus;
 mod feature_extractor;
 mod feature_rewriter;
 mod model;
+#[cfg(vibrato_verif)]
+pub mod verif;
 
 use std::num::NonZeroU32;
 
